@@ -13,11 +13,21 @@ ClassA(t) == ClassN("A", <<>>, FALSE, FALSE, NoType,
 Decls(n) == [i \in 1..n |-> IF i % 2 = 0 THEN Func("f" \o ToString(i), <<>>, Ret1(IntT), <<Arg(IntT, "x", TRUE, "0")>>)
                             ELSE ClassN("C" \o ToString(i), <<>>, FALSE, FALSE, NoType,
                                         <<Method("m", <<>>, Ret1(VoidT), <<Arg(IntT, "a", FALSE, "")>>, FALSE)>>)]
+\* every level holds declarations before AND after the nested namespace (a realistic project file): what was parsed
+\* inside must not be parsed again when the enclosing rule is retried
+RECURSIVE PopNs(_)
+PopNs(d) ==
+  LET k == ToString(d)
+      small(n) == ClassN(n \o k, <<>>, FALSE, FALSE, NoType, <<Method("m", <<>>, Ret1(VoidT), <<Arg(IntT, "a", FALSE, "")>>, FALSE)>>)
+  IN << small("P"), Func("f" \o k, <<>>, Ret1(IntT), <<Arg(IntT, "x", TRUE, "0")>>) >>
+     \o (IF d = 0 THEN <<>> ELSE << NsN("n" \o k, PopNs(d - 1)) >>)
+     \o << Func("g" \o k, <<>>, Ret1(VoidT), <<>>), small("Q"), Func("h" \o k, <<>>, Ret1(IntT), <<Arg(IntT, "y", FALSE, "")>>), small("R") >>
 Family(name, d) ==
   CASE name = "namespace-depth" -> DeepNs(d, <<ClassA(IntT)>>)
     [] name = "template-depth"  -> <<Func("f", <<>>, Ret1(DeepType(d)), <<Arg(DeepType(d), "x", FALSE, "")>>)>>
     [] name = "both"            -> DeepNs(d, <<ClassA(DeepType(d))>>)
     [] name = "file-size"       -> Decls(5 * d)
+    [] name = "namespace-populated" -> PopNs(d)
 Req == JsonDeserialize(IOEnv.TRACE_FILE)
 VARIABLE pos
 Init == pos = 1
